@@ -30,6 +30,16 @@ def gen_cases(rng, tier: str) -> list[dict]:
             if len(vs) <= 1 and rng.random() < 0.4:
                 c["via"] = rng.choice(["derivative-point", "derivative-number"])
                 c["x"] = vs[0] if vs else "whatever"
+            c["persist"] = rng.random() < 0.4      # one derivative object asked again after other work
+            cases.append(c)
+    for origin, pairs in (("near-special", common.near_special(rng, common.sizes(tier, 200, 2000))),
+                          ("compensating-magnitudes", common.compensating_products(rng, common.sizes(tier, 150, 1500)))):
+        for e, pt in pairs:
+            c = common.make_eval_case(origin, e, pt)
+            vs = common.names_of(e)
+            c.update(prior=[], x=rng.choice(vs), via=rng.choice(["name", "variable"]), persist=False)
+            if len(vs) == 1 and rng.random() < 0.4:
+                c["via"] = rng.choice(["derivative-point", "derivative-number"])
             cases.append(c)
     return cases
 
@@ -48,6 +58,25 @@ def impl_query(c: dict, e, p):
     return call(lambda: sm.Derivative(e).at(t)), f"dnum 0 {c['e']} {wire.num(t)}"
 
 
+def persistent_query(c: dict, e, p, first):
+    """the same Partial / Derivative object: at p, then the expression (and the object) used at other
+    points, then at p again — the last answer is the one that is judged"""
+    from smoothmath import Point
+    x = c["x"]
+    obj = call(lambda: sm.Derivative(e) if c["via"].startswith("derivative") else sm.Partial(e, x))
+    if obj[0] != "ok":
+        return first
+    obj = obj[1]
+    others = [wire.build_point(q) for q in c.get("prior", [])]
+    others.append(Point(**{k: v + 0.75 for k, v in p._coordinates.items()}))
+    call(obj.at, p)
+    for k, q in enumerate(others):
+        call(e.at, q)
+        if k % 2:
+            call(obj.at, q)
+    return call(obj.at, p)
+
+
 def check_cases(cases: list[dict], rep: Report, known: dict) -> None:
     ncs = []
     for c in cases:
@@ -57,6 +86,8 @@ def check_cases(cases: list[dict], rep: Report, known: dict) -> None:
             call(lambda: sm.Partial(e, c["x"]).at(wire.build_point(q)))
             call(e.at, wire.build_point(q))
         impl, suffix = impl_query(c, e, p)
+        if c.get("persist") and c["via"] != "derivative-number":
+            impl = persistent_query(c, e, p, impl)
         nc = NumCase((c["e"], c["p"], c["x"], c["via"]), suffix, impl, dict(c, impl=repr(impl)))
         nc.info["_e"] = e
         ncs.append(nc)
